@@ -8,6 +8,7 @@ CONSTANTS
   RejectChoices = {TRUE,FALSE}
   MaxPairChoices = {0,2}
   Classes = {"A","N","W","X","E"}
+  PriorChoices = {"none"}
   PlainStrats = {}
   PairLevelOnly = FALSE
   Variant = "design"
